@@ -260,6 +260,14 @@ func (n namedField) SetValue(opts *options, elem value, v value) Error {
 		return raiseExpectedObject(opts, elem)
 	}
 
+	// a sub-config that is overwritten no longer belongs to this config (see
+	// fields.del): it gets its new place when it is attached again
+	if old, ok := sub.c.fields.dict()[n.name].(cfgSub); ok {
+		if nv, isSub := v.(cfgSub); !isSub || nv.c != old.c {
+			old.c.ctx = context{}
+		}
+	}
+
 	sub.c.fields.set(n.name, v)
 	v.SetContext(context{parent: elem, field: n.name})
 	return nil
@@ -281,6 +289,15 @@ func (i idxField) SetValue(opts *options, elem value, v value) Error {
 	if i.i+1 <= 0 {
 		// no list can hold the entry (the number of entries would overflow)
 		return raiseIndexOutOfBounds(opts, elem, i.i)
+	}
+
+	if arr := sub.c.fields.array(); i.i < len(arr) {
+		// see namedField.SetValue: an overwritten sub-config is detached
+		if old, ok := arr[i.i].(cfgSub); ok {
+			if nv, isSub := v.(cfgSub); !isSub || nv.c != old.c {
+				old.c.ctx = context{}
+			}
+		}
 	}
 
 	sub.c.fields.setAt(i.i, elem, v)
